@@ -158,7 +158,8 @@ func (rc *BrokerRowProtoConverter) validateMetric(m *protoMetricsV1.Metric) erro
 			m.SimpleFields[idx].Name = string(commonseries.SanitizeFieldName(fieldName))
 		}
 		// field type unspecified
-		if m.SimpleFields[idx].Type == protoMetricsV1.SimpleFieldType_SIMPLE_UNSPECIFIED {
+		if m.SimpleFields[idx].Type <= protoMetricsV1.SimpleFieldType_SIMPLE_UNSPECIFIED ||
+			m.SimpleFields[idx].Type > protoMetricsV1.SimpleFieldType_FIRST {
 			return ErrBadMetricPBFormat
 		}
 		v := m.SimpleFields[idx].Value
